@@ -607,6 +607,22 @@ func (o *opCtx) exec(kind, k int) string {
 			d.add(gb[:])
 			d.addf("%v", f == f2)
 			if i%8 == 0 {
+				// batch inversion, with and without zeros among the inputs (zeros stay zero)
+				vec := make([]fr.Element, 1+rng.Intn(40))
+				for j := range vec {
+					vec[j] = FrFromBig(randBig(rng, ref.R))
+				}
+				if rng.Intn(2) == 0 {
+					vec[rng.Intn(len(vec))].SetZero()
+				}
+				snapV := append([]fr.Element(nil), vec...)
+				for _, iv := range fr.BatchInvert(vec) {
+					ib := iv.Bytes()
+					d.add(ib[:])
+				}
+				if !frEq(vec, snapV) {
+					o.modified("input-modified/fr.BatchInvert", "fr.BatchInvert changed its input vector")
+				}
 				var inv, sq fr.Element
 				inv.Inverse(&a)
 				d.addf("%s %d", inv.String(), a.Legendre())
